@@ -9,11 +9,28 @@ Import ListNotations.
 
 Definition blank_surface (h w : nat) : grid cell := gmake h w cell_default.
 
+(* in the domain, and no image shares a cell with another image or with a wide character
+   (wide characters may hide one another, narrow characters may be anywhere) *)
 Definition good_surface (o : oracle) (h w : nat) (s : grid cell) : Prop :=
-  in_domain o h w s = true /\ overlap_free o h w s = true.
+  in_domain o h w s = true /\ no_image_overlap o h w s = true.
 
-Definition good_ops (o : oracle) (h w : nat) (ops : list op) : Prop :=
-  forall g, In (Draw g) ops -> good_surface o h w g.
+(* every surface drawn is good for the size the terminal has at that moment; a resize supplies a
+   screen of the new size *)
+Fixpoint good_ops (o : oracle) (h w : nat) (ops : list op) : Prop :=
+  match ops with
+  | [] => True
+  | Draw g :: ops' => good_surface o h w g /\ good_ops o h w ops'
+  | Resize h' w' g :: ops' => gdims g h' w' /\ good_ops o h' w' ops'
+  | _ :: ops' => good_ops o h w ops'
+  end.
+
+(* the size after a list of operations *)
+Fixpoint size_after (h w : nat) (ops : list op) : nat * nat :=
+  match ops with
+  | [] => (h, w)
+  | Resize h' w' _ :: ops' => size_after h' w' ops'
+  | _ :: ops' => size_after h w ops'
+  end.
 
 (* ---------- blank surfaces ---------- *)
 Lemma map_repeat' : forall {A B} (f : A -> B) v n, map f (repeat v n) = repeat (f v) n.
@@ -37,10 +54,10 @@ Qed.
 Lemma img_cell_blank : forall h w i r c, ~ img_cell (blank_surface h w) i r c.
 Proof. intros h w i r c (x & Hx & Hk). apply gget_gmake_inv in Hx. subst. discriminate. Qed.
 
-Lemma den_blank : forall o h w r c, cw o space = 1 ->
+Lemma den_blank : forall o h w r c, cw o space = 1 -> fspace o face_default = face_default ->
   den o h w (blank_surface h w) r c = (Blank, face_default).
 Proof.
-  intros o h w r c Hsp. unfold den.
+  intros o h w r c Hsp Hfs. unfold den.
   assert (Hc : cover_img o h w (blank_surface h w) r c = None).
   { unfold cover_img. destruct (find _ _) as [[r0 c0]|] eqn:E; auto.
     apply find_some in E. destruct E as [_ E]. unfold covers_here, img_at in E. simpl in E.
@@ -53,7 +70,8 @@ Proof.
     apply gget_gmake_inv in Ex. subst. unfold is_wide. simpl. rewrite Hsp. reflexivity. }
   rewrite Hl. unfold own_glyph.
   destruct (gget (blank_surface h w) r c) as [x|] eqn:Ex; auto.
-  apply gget_gmake_inv in Ex. subst. simpl. rewrite Hsp. reflexivity.
+  apply gget_gmake_inv in Ex. subst. simpl. rewrite Hsp. simpl. unfold cell_of. rewrite N.eqb_refl.
+  simpl. rewrite Hfs. reflexivity.
 Qed.
 
 (* ---------- clear ---------- *)
@@ -83,7 +101,9 @@ Proof.
         -- rewrite Hk. left. reflexivity.
 Qed.
 
-Lemma rclear_state : forall s, snd (rclear s) = rnew (rh s) (rw s) true.
+Lemma rclear_state : forall s,
+  snd (rclear s) = mkrstate (rh s) (rw s) (front s) (gmake (rh s) (rw s) cell_default)
+                            (gmake (rh s) (rw s) MDamaged).
 Proof. reflexivity. Qed.
 
 (* ---------- the invariant ---------- *)
@@ -100,9 +120,9 @@ Record HInv (o : oracle) (h w : nat) (st : rstate) (scr : screen) : Prop := {
                  \/ (u = MDamaged /\ back st = blank_surface h w));
   hi_places : forall i r c, In (i, r, c) (places scr) <-> img_cell (back st) i r c }.
 
-Lemma hinv_init : forall o h w b, cw o space = 1 -> HInv o h w (rnew h w b) (blank_screen h w).
+Lemma hinv_init : forall o h w b, oracle_ok o -> HInv o h w (rnew h w b) (blank_screen h w).
 Proof.
-  intros o h w b Hsp. constructor; simpl; auto.
+  intros o h w b Hok. pose proof Hok as (Hsp & Hfs & Hlaw). constructor; simpl; auto.
   - unfold blank_screen. apply scr_ok_mk. apply gdims_gmake.
   - apply gdims_gmake.
   - fold (blank_surface h w). rewrite blank_resolved. apply good_blank. auto.
@@ -128,28 +148,27 @@ Proof.
   - apply good_of_bool; auto.
 Qed.
 
-Lemma hinv_skip : forall o h w st scr, cw o space = 1 ->
+Lemma hinv_skip : forall o h w st scr, oracle_ok o ->
   HInv o h w st scr -> HInv o h w (rskip st) scr /\ front (rskip st) = blank_surface h w.
 Proof.
-  intros o h w st scr Hsp HI. destruct HI. unfold rskip. split.
+  intros o h w st scr Hok HI. pose proof Hok as (Hsp & Hfs & Hlaw). destruct HI. unfold rskip. split.
   - constructor; simpl; auto.
     + rewrite hi_h0, hi_w0. apply gdims_gmake.
     + rewrite hi_h0, hi_w0. fold (blank_surface h w). rewrite blank_resolved. apply good_blank. auto.
   - simpl. rewrite hi_h0, hi_w0. reflexivity.
 Qed.
 
-Lemma hinv_clear : forall o h w st scr, cw o space = 1 ->
-  HInv o h w st scr ->
+(* after the commands of clear(): any front buffer [fr], blank back buffer, everything Damaged *)
+Lemma hinv_clear : forall o h w st scr fr, oracle_ok o ->
+  HInv o h w st scr -> gdims fr h w -> Good o h w (gmap (resolve o) fr) ->
   let scr' := exec_list o scr (fst (rclear st)) in
-  HInv o h w (rnew h w true) scr' /\ err scr' = false.
+  HInv o h w (mkrstate h w fr (gmake h w cell_default) (gmake h w MDamaged)) scr' /\ err scr' = false.
 Proof.
-  intros o h w st scr Hsp HI. cbv zeta.
+  intros o h w st scr fr Hok HI Hfd Hfg. pose proof Hok as (Hsp & Hfs & Hlaw). cbv zeta.
   destruct (rclear_cmds st) as [Hall Hiff].
   destruct (exec_image_erases o h w (fst (rclear st)) scr (hi_scr _ _ _ _ _ HI) Hall) as (Hs' & Hg & Hp).
   split; [|apply Hs'].
   constructor; simpl; auto.
-  - apply gdims_gmake.
-  - fold (blank_surface h w). rewrite blank_resolved. apply good_blank. auto.
   - apply good_blank. auto.
   - exists MDamaged. split; auto.
   - intros i r c. rewrite Hp. split.
@@ -160,16 +179,17 @@ Qed.
 Lemma rstate_eta : forall st, st = mkrstate (rh st) (rw st) (front st) (back st) (marks st).
 Proof. intros []. reflexivity. Qed.
 
-Lemma hinv_frame : forall o h w st scr, cw o space = 1 ->
+Lemma hinv_frame : forall o h w st scr, oracle_ok o ->
   HInv o h w st scr ->
   let nw := gmap (resolve o) (front st) in
   let scr' := exec_list o scr (fst (frame o st)) in
   HInv o h w (snd (frame o st)) scr'
   /\ front (snd (frame o st)) = blank_surface h w
+  /\ back (snd (frame o st)) = nw
   /\ (forall r c, r < h -> c < w -> gget (sgrid scr') r c = Some (den o h w nw r c))
   /\ (forall i r c, In (i, r, c) (places scr') <-> img_cell nw i r c).
 Proof.
-  intros o h w st scr Hsp HI. cbv zeta.
+  intros o h w st scr Hok HI. pose proof Hok as (Hsp & Hfs & Hlaw). cbv zeta.
   destruct (hi_marks _ _ _ _ _ HI) as (u & Hm & Hmode).
   rewrite (rstate_eta st). rewrite (hi_h _ _ _ _ _ HI), (hi_w _ _ _ _ _ HI), Hm.
   assert (Hu : u = MEmpty \/ (u = MDamaged /\ back st = gmake h w cell_default)).
@@ -179,7 +199,7 @@ Proof.
   { intros Hue. destruct Hmode as [[_ H]|[H _]]; auto. congruence. }
   assert (Himgs : forall i r c, img_cell (back st) i r c -> In (i, r, c) (places scr)).
   { intros i r c H. apply (hi_places _ _ _ _ _ HI). exact H. }
-  destruct (frame_correct o h w u (back st) (front st) scr Hsp (hi_back _ _ _ _ _ HI)
+  destruct (frame_correct o h w u (back st) (front st) scr Hsp Hlaw (hi_back _ _ _ _ _ HI)
                           (hi_front _ _ _ _ _ HI) (hi_front_dims _ _ _ _ _ HI) Hu
                           (hi_scr _ _ _ _ _ HI) Hsync Himgs) as (Hst & Hs' & Hg & Hp).
   rewrite Hst.
@@ -189,7 +209,7 @@ Proof.
   { intros i r c. rewrite Hp. split.
     - intros [[Hin Hne]|H]; auto. exfalso. apply Hne. apply (hi_places _ _ _ _ _ HI). exact Hin.
     - intros H. right. exact H. }
-  split; [|split; [reflexivity|split; [exact Hg|exact Hpl]]].
+  split; [|split; [reflexivity|split; [reflexivity|split; [exact Hg|exact Hpl]]]].
   constructor; simpl; auto.
   - apply gdims_gmake.
   - fold (blank_surface h w). rewrite blank_resolved. apply good_blank. auto.
@@ -223,13 +243,13 @@ Proof.
   - apply forallb_forall. intros [[i r] c] Hin. apply place_mem_in. apply Hp. exact Hin.
 Qed.
 
-Lemma frame_shows : forall o h w st scr, cw o space = 1 ->
+Lemma frame_shows : forall o h w st scr, oracle_ok o ->
   HInv o h w st scr ->
   same_display (exec_list o scr (fst (frame o st))) (show o h w (front st)) = true.
 Proof.
-  intros o h w st scr Hsp HI.
-  destruct (hinv_frame o h w st scr Hsp HI) as (HI' & _ & Hg & Hp).
-  destruct (show_den o h w (front st) Hsp (hi_front_dims _ _ _ _ _ HI) (hi_front _ _ _ _ _ HI))
+  intros o h w st scr Hok HI. pose proof Hok as (Hsp & Hfs & Hlaw).
+  destruct (hinv_frame o h w st scr Hok HI) as (HI' & _ & _ & Hg & Hp).
+  destruct (show_den o h w (front st) Hsp Hlaw (hi_front_dims _ _ _ _ _ HI) (hi_front _ _ _ _ _ HI))
     as (Hs2 & Hg2 & Hp2).
   apply (display_same _ _ h w).
   - apply HI'.
@@ -242,100 +262,165 @@ Qed.
 Fixpoint run (o : oracle) (st : rstate) (scr : screen) (ops : list op) : rstate * screen :=
   match ops with
   | [] => (st, scr)
-  | x :: ops' => run o (snd (rstep o st x)) (exec_list o scr (fst (rstep o st x))) ops'
+  | x :: ops' => run o (snd (rstep o st x)) (screen_step o scr x (fst (rstep o st x))) ops'
   end.
 
-Lemma hinv_step : forall o h w st scr x, cw o space = 1 ->
-  HInv o h w st scr -> (forall g, x = Draw g -> good_surface o h w g) ->
-  HInv o h w (snd (rstep o st x)) (exec_list o scr (fst (rstep o st x))).
+Definition step_size (h w : nat) (x : op) : nat * nat :=
+  match x with Resize h' w' _ => (h', w') | _ => (h, w) end.
+
+Definition good_op (o : oracle) (h w : nat) (x : op) : Prop :=
+  match x with
+  | Draw g => good_surface o h w g
+  | Resize h' w' g => gdims g h' w'
+  | _ => True
+  end.
+
+Lemma hinv_step : forall o h w st scr x, oracle_ok o ->
+  HInv o h w st scr -> good_op o h w x ->
+  HInv o (fst (step_size h w x)) (snd (step_size h w x))
+       (snd (rstep o st x)) (screen_step o scr x (fst (rstep o st x))).
 Proof.
-  intros o h w st scr x Hsp HI Hgood. destruct x as [g| | | |]; simpl.
+  intros o h w st scr x Hok HI Hgood. pose proof Hok as (Hsp & Hfs & Hlaw).
+  destruct x as [g| | | | |h' w' g]; unfold screen_step; cbn [rstep fst snd step_size].
   - apply hinv_draw; auto.
   - apply hinv_frame; auto.
   - apply hinv_skip; auto.
-  - rewrite (hi_h _ _ _ _ _ HI), (hi_w _ _ _ _ _ HI). apply hinv_clear; auto.
-  - rewrite (hi_h _ _ _ _ _ HI), (hi_w _ _ _ _ _ HI). apply (hinv_clear o h w st scr); auto.
+  - rewrite rclear_state, (hi_h _ _ _ _ _ HI), (hi_w _ _ _ _ _ HI).
+    apply (hinv_clear o h w st scr (front st)); auto; apply HI.
+  - rewrite (hi_h _ _ _ _ _ HI), (hi_w _ _ _ _ _ HI).
+    apply (hinv_clear o h w st scr (gmake h w cell_default)); auto.
+    + apply gdims_gmake.
+    + fold (blank_surface h w). rewrite blank_resolved. apply good_blank. auto.
+  - (* resize: the renderer's own placements were erased by clear(); the new screen is arbitrary *)
+    destruct (hinv_clear o h w st scr (gmake h w cell_default) Hok HI (gdims_gmake _ _ _)) as [HI1 He].
+    { fold (blank_surface h w). rewrite blank_resolved. apply good_blank. auto. }
+    simpl in Hgood.
+    constructor; cbn [rnew rh rw front back marks sgrid places]; auto.
+    + apply scr_ok_mk'. exact He. exact Hgood.
+    + apply gdims_gmake.
+    + fold (blank_surface h' w'). rewrite blank_resolved. apply good_blank. auto.
+    + apply good_blank. auto.
+    + exists MDamaged. split; auto.
+    + intros i r c. rewrite (hi_places _ _ _ _ _ HI1). cbn [back]. unfold img_cell.
+      split; intros (x & Hx & Hk); apply gget_gmake_inv in Hx; subst; discriminate.
 Qed.
 
-Lemma run_inv : forall o h w ops st scr, cw o space = 1 ->
+Lemma good_ops_head : forall o h w x ops,
+  good_ops o h w (x :: ops) ->
+  good_op o h w x /\ good_ops o (fst (step_size h w x)) (snd (step_size h w x)) ops.
+Proof. intros o h w [g| | | | |h' w' g] ops H; simpl in *; tauto. Qed.
+
+Lemma run_inv : forall o ops h w st scr, oracle_ok o ->
   HInv o h w st scr -> good_ops o h w ops ->
-  HInv o h w (fst (run o st scr ops)) (snd (run o st scr ops)).
+  HInv o (fst (size_after h w ops)) (snd (size_after h w ops))
+       (fst (run o st scr ops)) (snd (run o st scr ops)).
 Proof.
-  intros o h w. induction ops as [|x ops IH]; intros st scr Hsp HI Hgood; simpl; auto.
-  apply IH; auto.
-  - apply hinv_step; auto. intros g ->. apply Hgood. left. reflexivity.
-  - intros g Hg. apply Hgood. right. exact Hg.
+  intros o. induction ops as [|x ops IH]; intros h w st scr Hok HI Hgood; simpl; auto.
+  apply good_ops_head in Hgood. destruct Hgood as [Hx Hrest].
+  pose proof (hinv_step o h w st scr x Hok HI Hx) as HI'.
+  specialize (IH _ _ _ _ Hok HI' Hrest).
+  destruct x; exact IH.
 Qed.
 
 Lemma run_app : forall o ops1 ops2 st scr,
   run o st scr (ops1 ++ ops2) = run o (fst (run o st scr ops1)) (snd (run o st scr ops1)) ops2.
 Proof. intros o. induction ops1; intros; simpl; auto. Qed.
 
+Lemma good_ops_app : forall o ops1 ops2 h w,
+  good_ops o h w (ops1 ++ ops2) <->
+  good_ops o h w ops1 /\ good_ops o (fst (size_after h w ops1)) (snd (size_after h w ops1)) ops2.
+Proof.
+  intros o. induction ops1 as [|x ops1 IH]; intros ops2 h w; simpl.
+  - tauto.
+  - destruct x; simpl; rewrite ?IH; tauto.
+Qed.
+
 (* the screen after every frame of every history is the denotation of the surface drawn for it *)
-Theorem history_spec_run : forall o h w ops st scr, cw o space = 1 ->
+Theorem history_spec_run : forall o ops h w st scr, oracle_ok o ->
   HInv o h w st scr -> good_ops o h w ops ->
   spec_run o h w scr (front st) ops (rrun o st ops) = true.
 Proof.
-  intros o h w. induction ops as [|x ops IH]; intros st scr Hsp HI Hgood; [reflexivity|].
-  assert (Hx : forall g, x = Draw g -> good_surface o h w g) by (intros g ->; apply Hgood; left; reflexivity).
-  pose proof (hinv_step o h w st scr x Hsp HI Hx) as HI'.
-  assert (Hgood' : good_ops o h w ops) by (intros g Hg; apply Hgood; right; exact Hg).
-  assert (Herr : err (exec_list o scr (fst (rstep o st x))) = false) by apply HI'.
-  pose proof (IH _ _ Hsp HI' Hgood') as Hrest.
+  intros o. induction ops as [|x ops IH]; intros h w st scr Hok HI Hgood; [reflexivity|].
+  pose proof Hok as (Hsp & Hfs & Hlaw).
+  apply good_ops_head in Hgood. destruct Hgood as [Hx Hgood'].
+  pose proof (hinv_step o h w st scr x Hok HI Hx) as HI'.
+  assert (Herr : err (screen_step o scr x (fst (rstep o st x))) = false) by apply HI'.
+  pose proof (IH _ _ _ _ Hok HI' Hgood') as Hrest.
   cbn [rrun]. rewrite (surjective_pairing (rstep o st x)). cbn [spec_run].
   rewrite Herr. cbn [negb andb].
-  destruct x as [g| | | |].
-  - cbn [rstep fst snd] in *. destruct (hinv_draw o h w st scr g HI (Hx g eq_refl)) as [_ Hf].
+  destruct x as [g| | | | |h' w' g].
+  - cbn [rstep fst snd step_size] in *. destruct (hinv_draw o h w st scr g HI Hx) as [_ Hf].
     rewrite Hf in Hrest. exact Hrest.
-  - cbn [rstep] in *. rewrite (frame_shows o h w st scr Hsp HI). cbn [andb].
-    destruct (hinv_frame o h w st scr Hsp HI) as (_ & Hf & _). unfold blank_surface in Hf.
+  - cbn [rstep step_size fst snd] in *. unfold screen_step in *.
+    rewrite (frame_shows o h w st scr Hok HI). cbn [andb].
+    destruct (hinv_frame o h w st scr Hok HI) as (_ & Hf & _). unfold blank_surface in Hf.
     rewrite Hf in Hrest. exact Hrest.
-  - cbn [rstep fst snd] in *. destruct (hinv_skip o h w st scr Hsp HI) as [_ Hf]. unfold blank_surface in Hf.
+  - cbn [rstep fst snd step_size] in *. destruct (hinv_skip o h w st scr Hok HI) as [_ Hf]. unfold blank_surface in Hf.
     rewrite Hf in Hrest. exact Hrest.
-  - cbn [rstep] in *. rewrite rclear_state in *.
+  - cbn [rstep step_size fst snd] in *. exact Hrest.
+  - cbn [rstep fst snd step_size] in *.
     rewrite (hi_h _ _ _ _ _ HI), (hi_w _ _ _ _ _ HI) in *. exact Hrest.
-  - cbn [rstep fst snd] in *.
-    rewrite (hi_h _ _ _ _ _ HI), (hi_w _ _ _ _ _ HI) in *. exact Hrest.
+  - cbn [rstep fst snd step_size] in *. exact Hrest.
 Qed.
 
-Theorem history_final : forall o h w ops s, cw o space = 1 ->
-  good_ops o h w ops -> good_surface o h w s ->
+Theorem history_final : forall o h w ops s, oracle_ok o ->
+  good_ops o h w ops ->
+  good_surface o (fst (size_after h w ops)) (snd (size_after h w ops)) s ->
   same_display (snd (run o (rnew h w false) (blank_screen h w) (ops ++ [Draw s; Frame])))
-               (show o h w s) = true.
+               (show o (fst (size_after h w ops)) (snd (size_after h w ops)) s) = true.
 Proof.
-  intros o h w ops s Hsp Hgood Hs. rewrite run_app.
-  pose proof (run_inv o h w ops _ _ Hsp (hinv_init o h w false Hsp) Hgood) as HI.
+  intros o h w ops s Hok Hgood Hs. pose proof Hok as (Hsp & Hfs & Hlaw). rewrite run_app.
+  pose proof (run_inv o ops h w _ _ Hok (hinv_init o h w false Hok) Hgood) as HI.
   set (st := fst (run o (rnew h w false) (blank_screen h w) ops)) in *.
   set (scr := snd (run o (rnew h w false) (blank_screen h w) ops)) in *.
-  cbn [run rstep fst snd exec_list fold_left].
-  destruct (hinv_draw o h w st scr s HI Hs) as [HI1 Hf].
-  pose proof (frame_shows o h w (rdraw st s) scr Hsp HI1) as H. rewrite Hf in H. exact H.
+  set (h1 := fst (size_after h w ops)) in *. set (w1 := snd (size_after h w ops)) in *.
+  cbn [run rstep fst snd]. unfold screen_step.
+  destruct (hinv_draw o h1 w1 st scr s HI Hs) as [HI1 Hf].
+  cbn [exec_list fold_left].
+  pose proof (frame_shows o h1 w1 (rdraw st s) scr Hok HI1) as H. rewrite Hf in H. exact H.
 Qed.
 
-(* a forced clear: whatever the terminal showed, the next frame leaves exactly the drawn surface
-   in every cell; placements the renderer does not know about are all that survives *)
-Theorem forced_repaint : forall o h w s scr, cw o space = 1 ->
+Theorem forced_repaint : forall o h w s scr, oracle_ok o ->
   good_surface o h w s -> scr_ok scr h w ->
   let scr' := exec_list o scr (fst (frame o (rdraw (rnew h w true) s))) in
   sgrid scr' = sgrid (show o h w s) /\ err scr' = false
   /\ forall i r c, In (i, r, c) (places scr') <->
                     (In (i, r, c) (places scr) \/ In (i, r, c) (places (show o h w s))).
 Proof.
-  intros o h w s scr Hsp [Hd Ho] Hs. cbv zeta.
+  intros o h w s scr Hok [Hd Ho] Hs. pose proof Hok as (Hsp & Hfs & Hlaw). cbv zeta.
   assert (Hdims : gdims s h w).
   { unfold in_domain in Hd. apply andb_true_iff in Hd. apply grid_dims_true. tauto. }
   assert (Hdb : grid_dims s h w = true) by (apply grid_dims_true; exact Hdims).
   unfold rdraw. cbn [rnew rh rw front back marks]. rewrite Hdb.
   pose proof (good_of_bool o h w s Hd Ho) as GN.
-  destruct (frame_correct o h w MDamaged (gmake h w cell_default) s scr Hsp (good_blank o h w Hsp) GN Hdims
+  destruct (frame_correct o h w MDamaged (gmake h w cell_default) s scr Hsp Hlaw (good_blank o h w Hsp) GN Hdims
                           (or_intror (conj eq_refl eq_refl)) Hs) as (_ & Hs' & Hg & Hp).
   { intros H. discriminate. }
   { intros i r c H. exfalso. eapply img_cell_blank; eauto. }
-  destruct (show_den o h w s Hsp Hdims GN) as (Hs2 & Hg2 & Hp2).
+  destruct (show_den o h w s Hsp Hlaw Hdims GN) as (Hs2 & Hg2 & Hp2).
   split; [|split].
   - apply (grid_ext _ _ h w). apply Hs'. apply Hs2. intros r c Hr Hc. rewrite Hg, Hg2; auto.
   - apply Hs'.
   - intros i r c. rewrite Hp, Hp2. unfold img_cell. split.
     + intros [[H _]|H]; auto.
     + intros [H|H]; auto. left. split; auto. intros Hb. eapply img_cell_blank; eauto.
+Qed.
+
+(* the frame-dropping path of run_render: the application has drawn, then clear(), then frame(),
+   on a terminal in an arbitrary state *)
+Theorem clear_then_frame : forall o h w st scr, oracle_ok o ->
+  rh st = h -> rw st = w -> good_surface o h w (front st) -> scr_ok scr h w ->
+  let scr1 := exec_list o scr (fst (rclear st)) in
+  let scr' := exec_list o scr1 (fst (frame o (snd (rclear st)))) in
+  sgrid scr' = sgrid (show o h w (front st)) /\ err scr' = false.
+Proof.
+  intros o h w st scr Hok Hh Hw Hs Hscr. pose proof Hok as (Hsp & Hfs & Hlaw). cbv zeta.
+  destruct (rclear_cmds st) as [Hall _].
+  destruct (exec_image_erases o h w (fst (rclear st)) scr Hscr Hall) as (Hs1 & _ & _).
+  assert (Hst : snd (rclear st) = rdraw (rnew h w true) (front st)).
+  { rewrite rclear_state, Hh, Hw. unfold rdraw. cbn [rnew rh rw front back marks].
+    destruct Hs as [Hd _]. unfold in_domain in Hd. apply andb_true_iff in Hd. destruct Hd as [Hd _].
+    rewrite Hd. reflexivity. }
+  rewrite Hst.
+  destruct (forced_repaint o h w (front st) _ Hok Hs Hs1) as (Hg & He & _). auto.
 Qed.
